@@ -16,7 +16,7 @@ import (
 func init() {
 	register(&Check{
 		ID:   "C18",
-		Rule: "case = (struct type, value) from the C01 corpus (every map key/value cell at 0/1/2/8/9/14/27/53/105/209 entries, every list/set cell, nested containers, by-value and pointer structs, non-empty unknown-field holders, static zoo types, random composites). After one warm-up call, runtime.MemStats.Mallocs is read around K=50 calls of EncodedSize(ptr) and around K=50 calls of EncodeObject(buf>=size, nil, ptr) in a plain-build child with GC off; up to 5 attempts, the same for calls alternating with the previous case's type; violation iff the minimum delta over the attempts is > 0 (a real regression allocates on every call, sporadic runtime noise does not); in every fourth case also the first call after two forced garbage collections (3 attempts). distinct = distinct type-shape signature; non-trivial = the message has at least one field",
+		Rule: "case = (struct type, value) from the C01 corpus (every map key/value cell at 0/1/2/8/9/14/27/53/105/209 entries, every list/set cell, nested containers, by-value and pointer structs, non-empty unknown-field holders, static zoo types, random composites). After one warm-up call, runtime.MemStats.Mallocs is read around K=50 calls of EncodedSize(ptr) and around K=50 calls of EncodeObject(buf>=size, nil, ptr) in a plain-build child with GC off; up to 5 attempts, the same for calls alternating with the previous case's type; violation iff the minimum delta over the attempts is > 0 (a real regression allocates on every call, sporadic runtime noise does not); in every fourth case (thorough: every 32nd) also the first call after two forced garbage collections (3 attempts). distinct = distinct type-shape signature; non-trivial = the message has at least one field",
 		Plan: func(tier string) []BuildPlan {
 			if tier == "thorough" {
 				return []BuildPlan{{"plain", encEnumerated + 400000}}
@@ -91,7 +91,7 @@ func runC18(c *harness.Ctx, idx int) {
 	if d := measure(func() { n, _ := frugal.EncodeObject(buf, nil, ptr); sink += n }); d > 0 {
 		c.Violation("encode-allocates", "C18/encode-allocates/"+sig, "EncodeObject(buf, nil, ptr) allocates: at least %d heap objects per %d calls in every one of 5 attempts (type %s)", d, K, cc.S.Sig())
 	}
-	if idx%4 == 0 {
+	if (c.Tier != "thorough" && idx%4 == 0) || idx%32 == 0 { // (forced collections are costly in long-lived thorough workers)
 		// "after first use" holds across garbage collections as well: scratch objects parked
 		// in pools the collector empties would have to be allocated again
 		gcMeasure := func(f func()) uint64 {
